@@ -167,9 +167,13 @@ Definition out_step (s : outst) (e : ev) : option outst :=
   | EOut ("g", [ASym "sub"; AInt cid; ABytes d]) =>
       Some (mkOut (aset cid (getd [] cid (o_rest s) ++ d) (o_rest s)) (o_closed s))
   | EOut ("g", [ASym "hand"; AInt cid; ABytes b]) =>
+      if zmem cid (o_closed s) then Some s else
       let rest := getd [] cid (o_rest s) in
       if is_prefix b rest then Some (mkOut (aset cid (zdrop (zlen b) rest) (o_rest s)) (o_closed s)) else None
   | EOut ("cb", [ASym "close"; AInt cid; _]) => Some (mkOut (o_rest s) (cid :: o_closed s))
+  | EOut ("g", [ASym "fail"; AInt cid; _]) =>
+      (* a fatal result: the connection no longer "stays open until its output has drained" *)
+      Some (mkOut (o_rest s) (cid :: o_closed s))
   | EOut ("hr", [AInt cid; ASym "outbuf"; AInt v]) =>
       if zmem cid (o_closed s) then Some s
       else if v =? zlen (getd [] cid (o_rest s)) then Some s else None
